@@ -5,6 +5,8 @@ import os.path
 from collections.abc import Sequence
 from typing import IO, Self
 
+from pymap.parsing.modutf7 import modutf7_encode, modutf7_decode
+
 from .io import FileWriteable
 
 __all__ = ['Subscriptions']
@@ -64,10 +66,17 @@ class Subscriptions(FileWriteable):
     def open(cls, path: str, fp: IO[str]) -> Self:
         return cls(path)
 
+    @classmethod
+    def _decode(cls, line: str) -> str:
+        try:
+            return modutf7_decode(line.encode('ascii'))
+        except UnicodeError:
+            return line
+
     def read(self, fp: IO[str]) -> None:
         for line in fp:
-            self.add(line.rstrip())
+            self.add(self._decode(line.rstrip('\r\n')))
 
     def write(self, fp: IO[str]) -> None:
         for sub in self._subscribed:
-            fp.write(sub + '\r\n')
+            fp.write(modutf7_encode(sub).decode('ascii') + '\r\n')
